@@ -61,6 +61,12 @@ o {
   k other
 }
 n 321
+h "::1" 8080
+h "host.example" "http"
+l2 (one, two)
+l2 (one)
+s first
+s second
 '''
 
 
@@ -134,7 +140,7 @@ def main(tier):
     with C.Server(b) as s:
         h, res = s.expand([], [C.load(d) for _, d in files])
         nvalid = sum(1 for r in res if r.get('status') == 'ok' and r.get('rc') == 0)
-    tot = {'total': 0, 'fail': 0, 'ok': 0, 'viol': 0, 'fatal_exit': 0}
+    tot = {'total': 0, 'fail': 0, 'ok': 0, 'viol': 0, 'fatal_exit': 0, 'diff_checked': 0}
     rc_hist = [0] * 8
     ubsan = {}
     per_kind = {}
@@ -157,7 +163,11 @@ def main(tier):
             for v in r['violations']:
                 inp = binascii.unhexlify(v['input'])
                 prior = PRIORS[r['task'][1]][0]
-                if v['kind'] == 'died':
+                if v['kind'] == 'after-failed-loads':
+                    cls = 'C14.failed-load-left-traces'
+                    what = 'conf_read() of %r succeeds on prior state %s, but after %d rejected load(s) in the same process (first: %r) it produces a different tree than in a fresh process' % (
+                        inp[:80], prior, v.get('failed_before', 0), binascii.unhexlify(v.get('first_failed', ''))[:60])
+                elif v['kind'] == 'died':
                     cls = 'C14.died/' + ('asan' if 'Sanitizer' in v.get('stderr', '') else v.get('status', '?'))
                     what = 'conf_read() of %r on prior state %s: process %s: %s' % (inp[:80], prior, v.get('status'), (v.get('stderr', '').strip().splitlines() or [''])[0][:160])
                 else:
@@ -168,6 +178,10 @@ def main(tier):
                               dedup=cls + '|' + prior + '|' + v['kind'])
             if run.too_many(50):
                 break
+            if run.out_of_time(15):
+                run.cap('deadline: %d of %d candidate sets were swept' % (sum(d['candidates'] > 0 for d in per_kind.values()), len(tasks)))
+                pool.pool.terminate()
+                break
     if nvalid < len(files):
         run.note('only %d of the %d "valid" files load on this tree (the others cannot contribute successful mutations)' % (nvalid, len(files)))
     if (tot['fail'] < 10000 or tot['ok'] < 1000) and not run.violations and not run.capped:
@@ -177,7 +191,7 @@ def main(tier):
                    '(complete dump of the live tree compared before/after, hook log empty); the others loaded successfully (totality + sanitizer only)',
            'samples': [t.decode('latin-1') for t in TOKENS] + ['<every prefix and every 1-byte substitution of %s>' % f for f, _ in files],
            'exhaustive': True, 'successful_loads': tot['ok'], 'failed_loads_checked_for_no_change': tot['fail'],
-           'terminated_by_LOG_FATAL_of_a_hook': tot['fatal_exit'], 'return_code_histogram': {str(-i): n for i, n in enumerate(rc_hist)},
+           'terminated_by_LOG_FATAL_of_a_hook': tot['fatal_exit'], 'successful_loads_after_failures_compared_with_fresh_process': tot['diff_checked'], 'return_code_histogram': {str(-i): n for i, n in enumerate(rc_hist)},
            'prior_states': [p for p, _ in PRIORS], 'valid_files_loading': nvalid, 'per_set': per_kind, 'ubsan_reports_logged': ubsan,
            'token_alphabet': [t.decode('latin-1') for t in TOKENS], 'byte_alphabet': [x.decode('latin-1') for x in BYTES],
            'explanation': 'LeakSanitizer is off: memory a failed parse leaks is not a memory error in the sense of the statement. A load that makes the log layer '
